@@ -355,7 +355,8 @@ func RunWorker(prop string, seed uint64, worker, cases int, scratch, out string,
 	for c := 0; c < cases; c++ {
 		cs := vk.Mix(seed, prop, fmt.Sprint(worker), fmt.Sprint(c))
 		r := vk.NewRand(cs)
-		s := &Scen{Prop: prop, Res: res, Seed: cs, Case: worker*100 + c}
+		s := &Scen{Prop: prop, Res: res, Seed: cs, Case: worker*100 + c, ForceInterrupt: -1}
+		fmt.Sscanf(extra["interrupt"], "%d", &s.ForceInterrupt)
 		base := filepath.Join(scratch, fmt.Sprintf("c%d", c))
 		a := 100 + (propNo*3+worker)%100
 		b := (c*2 + r.Intn(100)*2) % 240
